@@ -137,6 +137,21 @@ CLAIMED["C07"] = dict(
     technique="Lean 4 algebraic identity + congruence of the propagation loops + correspondence and API oracle",
     ref="DESIGN.md §5 C07")
 
+CLAIMED["C08"] = dict(
+    text="Lean 4 proof in an arbitrary monoid (the model's denseStep/evolAll/evolJit are generic in the composition): U(t_0)=1, "
+         "U(t_i)=U_dt^i=U_1^(Ndense*i), U(t_i+t_j)=U(t_i)U(t_j) on the grid, k calls of calculate_next store exactly the value "
+         "calculate() stores at index k (any number of incremental steps); superoperators under numpy.tensordot with the delta-delta "
+         "identity are proved to form such a monoid (associativity, unit) and composition acts as successive application; in a complete "
+         "normed algebra the elementary step is the order-L Taylor polynomial of dt_d*generator and refining the internal step changes "
+         "U(t) by at most the sum of the two truncation bounds (refine_bound). Tied to EvolutionSuperOperator by 1e-9 (relative) "
+         "comparison of the whole data array in both modes (jit with/without save, boundary (step,Ndense) pairs where float division is "
+         "inexact) and by the oracle: identity, semigroup, trace/Hermiticity preservation, apply() vs direct propagation, jit vs all, "
+         "refinement and distance to expm within the bound. Partial: 'apply(U,rho) = propagate(rho)' (linearity of the loop in the "
+         "state) and trace/Hermiticity of U are observed, not proved.",
+    note="Lean kernel + standard axioms; model validated on generated inputs; scipy expm / spectral norms in the oracle.",
+    technique="Lean 4 monoid-power proofs + tensordot associativity + Mathlib exponential bound + correspondence",
+    ref="DESIGN.md §5 C08")
+
 NOT_APPLICABLE = {}
 
 
